@@ -202,11 +202,16 @@ func (c *SchemaCtx) IssueFromUnknownError(err error) *ZogIssue {
 	if !ok {
 		return c.Issue().SetError(err)
 	}
+	// the issue belongs to whoever built it (a user may return one sentinel issue from every call): the execution
+	// reports a copy of its own, so that filling in the type and the message, catching it or collecting it into the
+	// issue pool never touches the caller's object
+	e := NewZogIssue()
+	*e = *zerr
 	// issues built outside of a schema (i.e by zhttp or zjson) do not know the type of the schema they end up in
-	if zerr.Dtype == "" {
-		zerr.Dtype = c.DType
+	if e.Dtype == "" {
+		e.Dtype = c.DType
 	}
-	return zerr
+	return e
 }
 
 // Frees the context to be reused
